@@ -274,4 +274,76 @@ theorem setLiteral_value_unit (alg : Alg K) (env : List Char → Option K) (v u 
     simp only [h0, hv, hsu, this, Bool.false_eq_true, if_false, hf]
 
 
+/-! ### the model's renderer writes the ordinary grammar -/
+
+/-- the leaves of a tree are tokens `parse` can read back. -/
+def LeavesOK : Expr → Prop
+  | .num l => validNum l
+  | .name n => validName n
+  | .mul a b => LeavesOK a ∧ LeavesOK b
+  | .div a b => LeavesOK a ∧ LeavesOK b
+  | .pow a b => LeavesOK a ∧ LeavesOK b
+
+theorem renders_mono {e : Expr} {l : Nat} {s : List Char} (h : Renders e l s) : ∀ k, Renders e (l + k) s
+  | 0 => h
+  | k + 1 => Renders.up (renders_mono h k)
+
+theorem renders_le {e : Expr} {l l' : Nat} {s : List Char} (h : Renders e l s) (hl : l ≤ l') : Renders e l' s := by
+  obtain ⟨k, rfl⟩ := Nat.exists_eq_add_of_le hl
+  exact renders_mono h k
+
+theorem renders_wsL {e : Expr} {l : Nat} {s : List Char} (h : Renders e l s) (w : List Char) (hw : allWs w) :
+    Renders e l (w ++ s) := by
+  induction w with
+  | nil => exact h
+  | cons c w ih =>
+    exact Renders.wsL c (hw c (List.mem_cons_self ..)) (ih (fun x hx => hw x (List.mem_cons_of_mem _ hx)))
+
+theorem renders_wsR {e : Expr} {l : Nat} {s : List Char} (h : Renders e l s) (w : List Char) (hw : allWs w) :
+    Renders e l (s ++ w) := by
+  induction w generalizing s with
+  | nil => simpa using h
+  | cons c w ih =>
+    have h1 := Renders.wsR c (hw c (List.mem_cons_self ..)) h
+    have h2 := ih h1 (fun x hx => hw x (List.mem_cons_of_mem _ hx))
+    simpa using h2
+
+theorem renders_paren_pad {e : Expr} {l : Nat} {s : List Char} (h : Renders e l s) (w : List Char) (hw : allWs w)
+    (k : Nat) : Renders e k (w ++ '(' :: s ++ ')' :: w) := by
+  have h1 : Renders e 0 ('(' :: (s ++ [')'])) := Renders.paren h
+  have h2 := renders_wsR (renders_wsL h1 w hw) w hw
+  have : w ++ '(' :: (s ++ [')']) ++ w = w ++ '(' :: s ++ ')' :: w := by simp
+  rw [this] at h2
+  exact renders_le h2 (Nat.zero_le _)
+
+/-- the model's renderer (minimal parentheses, the blank string `w` around every token and parenthesis group)
+    writes the tree in the ordinary grammar. -/
+theorem render_renders (w : List Char) (hw : allWs w) : ∀ (e : Expr) (lvl : Nat), LeavesOK e →
+    Renders e lvl (render w lvl e)
+  | .num l, lvl, h => by
+    simp only [render]
+    exact renders_le (renders_wsR (renders_wsL (Renders.num l h) w hw) w hw) (Nat.zero_le _)
+  | .name n, lvl, h => by
+    simp only [render]
+    exact renders_le (renders_wsR (renders_wsL (Renders.name n h) w hw) w hw) (Nat.zero_le _)
+  | .mul a b, lvl, h => by
+    have hab := Renders.mul (render_renders w hw a 2 h.1) (render_renders w hw b 1 h.2)
+    simp only [render]
+    split
+    · exact renders_le hab ‹_›
+    · exact renders_paren_pad hab w hw lvl
+  | .div a b, lvl, h => by
+    have hab := Renders.div (render_renders w hw a 2 h.1) (render_renders w hw b 1 h.2)
+    simp only [render]
+    split
+    · exact renders_le hab ‹_›
+    · exact renders_paren_pad hab w hw lvl
+  | .pow a b, lvl, h => by
+    have hab := Renders.pow (render_renders w hw a 1 h.1) (render_renders w hw b 0 h.2)
+    simp only [render]
+    split
+    · exact renders_le hab ‹_›
+    · exact renders_paren_pad hab w hw lvl
+
+
 end Atomman.C09
